@@ -454,3 +454,51 @@ V("C06", "benign-rename-keys", L,
 V("C06", "benign-nl-anchor", L,
   ("_gids_re=re.compile(br'^Gid:\\t(\\d+)\\t(\\d+)\\t(\\d+)', re.MULTILINE),",
    "_gids_re=re.compile(br'\\nGid:\\t(\\d+)\\t(\\d+)\\t(\\d+)'),"), "silent")
+
+# ----------------------------------------------------------------- C07
+V("C07", "steal-field-misnamed", L,
+  ("        fields.append('steal')", "        fields.append('guest')"), "fires:C07.R1")
+V("C07", "cpu-values-off-by-one", L,
+  ("    fields = values[1 : len(scputimes._fields) + 1]\n    fields = [float(x) / CLOCK_TICKS for x in fields]\n    return scputimes(*fields)",
+   "    fields = values[0 : len(scputimes._fields)]\n    fields = [float(x) / CLOCK_TICKS for x in fields]\n    return scputimes(*fields)"),
+  "fires:C07.R1")
+V("C07", "percpu-not-divided", L,
+  ("                fields = [float(x) / CLOCK_TICKS for x in fields]\n                entry = scputimes(*fields)",
+   "                fields = [float(x) for x in fields]\n                entry = scputimes(*fields)"),
+  "fires:C07.R1")
+V("C07", "percpu-includes-aggregate", L,
+  ("        # get rid of the first line which refers to system wide CPU stats\n        f.readline()\n", ""),
+  "fires:C07.R1")
+V("C07", "guest-double-counted", I,
+  ("        tot -= getattr(times, \"guest\", 0)  # Linux 2.6.24+\n", ""), "fires:C07.R2")
+V("C07", "iowait-counted-busy", I,
+  ("    busy -= getattr(times, \"iowait\", 0)\n", ""), "fires:C07.R2")
+V("C07", "clip-removed", I,
+  ("        field_delta = max(0, field_delta)\n", ""), "fires:C07.R2")
+V("C07", "percent-not-rounded", I,
+  ("            return round(busy_perc, 1)", "            return busy_perc"), "fires:C07.R2")
+V("C07", "busy-over-busy", I,
+  ("            busy_perc = (busy_delta / all_delta) * 100", "            busy_perc = (busy_delta / (all_delta + busy_delta)) * 100"),
+  "fires:C07.R2")
+V("C07", "times-percent-no-clamp", I,
+  ("            field_perc = min(max(0.0, field_perc), 100.0)\n", ""), "fires:C07.R3")
+V("C07", "times-percent-divisor-busy", I,
+  ("        scale = 100.0 / max(1, all_delta)", "        scale = 100.0 / max(1, _cpu_busy_time(times_delta))"),
+  "fires:C07.R3")
+V("C07", "proc-percent-double-ncpu", I,
+  ("            return _timer() * num_cpus\n", "            return _timer()\n"), "fires:C07.R4")
+V("C07", "proc-percent-user-only", I,
+  ("        delta_proc = (pt2.user - pt1.user) + (pt2.system - pt1.system)",
+   "        delta_proc = (pt2.user - pt1.user)"), "fires:C07.R4")
+V("C07", "proc-percent-negative-accepted", I,
+  ("        blocking = interval is not None and interval > 0.0\n        if interval is not None and interval < 0:\n            msg = f\"interval is not positive (got {interval!r})\"\n            raise ValueError(msg)\n        num_cpus",
+   "        blocking = interval is not None and interval > 0.0\n        num_cpus"), "fires:C07.R4")
+V("C07", "proc-percent-sample-not-stored", I,
+  ("        self._last_proc_cpu_times = pt2\n\n        try:", "        try:"), "fires:C07.R4")
+V("C07", "shared-key", I,
+  ("            t1 = _last_cpu_times.get(tid) or cpu_times()\n        _last_cpu_times[tid] = cpu_times()\n        return calculate(t1, _last_cpu_times[tid])",
+   "            t1 = _last_cpu_times.get(0) or cpu_times()\n        _last_cpu_times[0] = cpu_times()\n        return calculate(t1, _last_cpu_times[0])"),
+  "fires:C07.R5")
+V("C07", "benign-reorder-terms", I,
+  ("        delta_proc = (pt2.user - pt1.user) + (pt2.system - pt1.system)",
+   "        delta_proc = (pt2.system + pt2.user) - (pt1.system + pt1.user)"), "silent")
